@@ -49,10 +49,13 @@ Definition is_ws (n : node) : bool := tt_in n T_Whitespace.
 Definition is_newline (n : node) : bool := tt_in n T_Newline.
 Definition is_kw (n : node) : bool := tt_in n T_Keyword.
 
-(* Token.normalized: upper-cased for keyword leaves, the value otherwise *)
+(* Token.normalized of a keyword token: ' '.join(value.upper().split()) -- upper-cased, the white space
+   between the words of a compound keyword collapsed to one blank *)
+Definition knorm (v : text) : text := join_split space_set (upper v).
+(* Token.normalized: knorm for keyword leaves, the value otherwise *)
 Definition normalized (n : node) : text :=
   match n with
-  | Leaf ty v => if tin ty T_Keyword then upper v else v
+  | Leaf ty v => if tin ty T_Keyword then knorm v else v
   | Grp _ v _ => v
   end.
 
@@ -94,7 +97,7 @@ Definition match_pat (n : node) (p : pat) : bool :=
       | None => true
       | Some vals =>
           if tin ty T_Keyword
-          then existsb (text_eqb (upper v)) (map upper vals)
+          then existsb (text_eqb (knorm v)) (map upper vals)
           else existsb (text_eqb v) vals
       end
   end.
